@@ -310,6 +310,18 @@ func (m *Manager) AssignAddress(ctx context.Context, sessionID string, ipv4PoolI
 		}
 
 		m.mu.Lock()
+		if m.sessionGone(sessionID, session) {
+			// Terminated while the allocator was working: the index entries of the
+			// session are (being) removed and nobody would remove one added now
+			m.mu.Unlock()
+			if rerr := m.allocator.ReleaseIPv4(context.WithoutCancel(ctx), ip); rerr != nil {
+				m.logger.Warn("Failed to release IPv4",
+					zap.String("session_id", sessionID),
+					zap.Error(rerr),
+				)
+			}
+			return fmt.Errorf("session terminated during address assignment: %s", sessionID)
+		}
 		session.IPv4 = ip
 		session.SubnetMask = mask
 		session.Gateway = gateway
@@ -328,6 +340,18 @@ func (m *Manager) AssignAddress(ctx context.Context, sessionID string, ipv4PoolI
 			)
 		} else {
 			m.mu.Lock()
+			if m.sessionGone(sessionID, session) {
+				m.mu.Unlock()
+				if ip != nil {
+					if rerr := m.allocator.ReleaseIPv6(context.WithoutCancel(ctx), ip); rerr != nil {
+						m.logger.Warn("Failed to release IPv6",
+							zap.String("session_id", sessionID),
+							zap.Error(rerr),
+						)
+					}
+				}
+				return fmt.Errorf("session terminated during address assignment: %s", sessionID)
+			}
 			session.IPv6 = ip
 			session.IPv6Prefix = prefix
 			if ip != nil {
@@ -338,8 +362,10 @@ func (m *Manager) AssignAddress(ctx context.Context, sessionID string, ipv4PoolI
 	}
 
 	m.mu.Lock()
-	session.State = StateEstablishing
-	session.UpdatedAt = time.Now()
+	if session.State != StateTerminating {
+		session.State = StateEstablishing
+		session.UpdatedAt = time.Now()
+	}
 	m.mu.Unlock()
 
 	m.logger.Info("Address assigned",
@@ -348,6 +374,13 @@ func (m *Manager) AssignAddress(ctx context.Context, sessionID string, ipv4PoolI
 	)
 
 	return nil
+}
+
+// sessionGone reports whether the session looked up earlier has since been removed
+// or is being terminated. The caller holds m.mu.
+func (m *Manager) sessionGone(sessionID string, session *Session) bool {
+	cur, ok := m.sessions[sessionID]
+	return !ok || cur != session || session.State == StateTerminating
 }
 
 // ActivateSession marks a session as active.
